@@ -36,6 +36,9 @@ def obligations(tier):
               desc='memb with sys_membarrier under x86-TSO (store buffer depth 1): the reader side has only compiler barriers, the updater\'s '
                    'membarrier must flush the reader\'s buffered ctr store before each scan (store buffering modelled for the reader thread; the updater is SC)', wit=W1)
     if not q:
+        obs += gp('bp_1r', 'bp', ['updater', 'reader'], 3,
+                  desc='bp: updater vs one lazily registered reader (registration through the real arena allocator inside the first rcu_read_lock)', wit=W1)
+    if not q:
         # further thorough obligations that were run to a verdict on this tree
         obs += gp('mb_nested', 'mb', ['updater', 'reader'], 3, nested=1, desc='mb: reader with a nested lock/unlock pair inside its section', wit=W1)
     return obs
